@@ -154,6 +154,17 @@ CHECKS = {
         note="Trusted: z3 (linear integer arithmetic); the exact-decimal model of float()/'%f' (sx/symnum.py, valid "
              'up to 15 significant / 6 fractional digits); hsl()/hsla() and colour keywords are outside.',
         design='3 C18'),
+    'C20': dict(
+        text='Bounded symbolic model checking of encutils: getEncodingInfo with the three extractors as nondeterministic '
+             'stubs (each answer a solver-driven choice), the HTTP media type a representative of each class with every '
+             'letter in symbolic case and a symbolic subtype character (so the regex-based classification is decided by the '
+             'solver), response present/absent - reported encoding and mismatch flag are compared with the documented '
+             'table on every path; detectXMLEncoding on every text of length <= 4/5 with symbolic characters and on XML '
+             'declarations with symbolic encoding names (BOM, declaration, default, includeDefault symbolic), stream '
+             'position preserved.',
+        note='Trusted: z3, symbolic regex layer, io.StringIO stand-in over symbolic text; html.parser / email.message based '
+             'extractors are environment (stubs).',
+        design='3 C20'),
 }
 
 NA_REASON = 'check not built yet (build in progress; DESIGN.md section 3 describes the planned harness)'
